@@ -18,7 +18,32 @@ FAMILIES = {
         "vh_cfg": {},
         "tiers": {"quick": {"rand": 200, "rlen": 40, "chunks": 8}, "thorough": {"rand": 6000, "rlen": 60, "chunks": 14}},
     },
+    "sd": {
+        "fix_all": ["addprover", "walk", "repost"],
+        "mc": {"module": "MCSD", "cfg": {"quick": "SD-mc-rewards-quick.cfg", "thorough": ["SD-mc-rewards-quick.cfg"]},
+               "timeout": {"quick": 400, "thorough": 1800}},
+        "sim": {"module": "SimSD", "cfg": "SD-sim.cfg",
+                "tiers": {"quick": {"num": 100, "depth": 40, "workers": 4}, "thorough": {"num": 2000, "depth": 50, "workers": 8, "timeout": 2400}}},
+        "trace_module": "SDTrace", "trace_cfg": "SD-trace.cfg",
+        "variants": [
+            {"vh_cfg": {"honest": "p1", "I": 3, "C": 4, "cs": 2, "fs": 2, "min": 2},
+             "sim_subst": {"PI": "3", "PC": "4", "PCS": "2", "PFS": "2", "PMIN": "2"}},
+            {"vh_cfg": {"honest": "p1", "I": 2, "C": 3, "cs": 1, "fs": 1, "min": 1},
+             "sim_subst": {"PI": "2", "PC": "3", "PCS": "1", "PFS": "1", "PMIN": "1"}},
+            {"vh_cfg": {"honest": "p1", "I": 4, "C": 2, "cs": 3, "fs": 3, "min": 2},
+             "sim_subst": {"PI": "4", "PC": "2", "PCS": "3", "PFS": "3", "PMIN": "2"}},
+            {"vh_cfg": {"honest": "p1", "I": 5, "C": 5, "cs": 2, "fs": 3, "min": 1},
+             "sim_subst": {"PI": "5", "PC": "5", "PCS": "2", "PFS": "3", "PMIN": "1"}},
+        ],
+        "tiers": {"quick": {"rand": 200, "rlen": 60, "chunks": 8}, "thorough": {"rand": 5000, "rlen": 80, "chunks": 14}},
+    },
 }
+
+SD_ASSUME = COMMON_ASSUME + [
+    "block boundaries are executed at keeper level (storage.BeginBlocker on a cache context with height+1 and time+1 day)",
+    "ground truth about proof payloads comes from the harness, which builds them with the repository's BuildTree / go-merkletree",
+    "file sizes >= 1 and replication >= 1 in this family (boundary values belong to C05/C07)",
+]
 
 PROPS = {
     "C08": {
@@ -41,5 +66,53 @@ PROPS = {
         "rule": "non-trivial = a successful registration (new, renewal, or re-registration of a lapsed name); "
                 "distinct = distinct (pre-state, message, post-state) triples",
         "assumptions": COMMON_ASSUME + ["name expiry is driven by overriding the context height (RNS handlers read only ctx.BlockHeight())"],
+    },
+    "C01": {
+        "family": "sd", "formulas": ["C01_Listed", "C01_NoEffect", "C01_Paid"], "nt": "C01",
+        "mc_cfg": {"quick": ["SD-mc-rewards-quick.cfg"], "thorough": ["SD-mc-rewards-quick.cfg", "SD-mc-rewards-thorough.cfg"]},
+        "bug_variants": [("addprover", ["C01_Listed", "PC01a", "PC01b"], "SD-mc-rewards-quick.cfg")],
+        "rule": "non-trivial = a post-proof step whose payload is NOT a valid proof of the stored challenge (junk, other file, bit flip, "
+                "truncated path, other chunk, unknown/full file), or a reward block in which some account's balance rises; "
+                "distinct = distinct (pre-state, message, post-state) triples",
+        "assumptions": SD_ASSUME,
+    },
+    "C02": {
+        "family": "sd", "formulas": ["C02_ChallengeInRange", "C02_HonestAccepted", "C02_HonestKept"], "nt": "C02",
+        "mc_cfg": {"quick": ["SD-mc-rewards-quick.cfg"], "thorough": ["SD-mc-rewards-quick.cfg", "SD-mc-rewards-thorough.cfg"]},
+        "bug_variants": [],
+        "rule": "non-trivial = a reward block on a file past its first window that still lists a prover which has had a valid proof "
+                "accepted in every completed proof window; distinct = distinct (pre-state, block, post-state) triples",
+        "assumptions": SD_ASSUME + ["the honest prover of the random driver proves once per window before the window closes"],
+    },
+    "C03": {
+        "family": "sd", "formulas": ["C03_Reward"], "nt": "C03",
+        "mc_cfg": {"quick": ["SD-mc-rewards-quick.cfg"], "thorough": ["SD-mc-rewards-quick.cfg", "SD-mc-rewards-thorough.cfg"]},
+        "bug_variants": [("walk", ["PC03"], "SD-mc-rewards-3p.cfg")],
+        "rule": "non-trivial = a reward block with at least one listed prover and a positive amount released from gauges; "
+                "distinct = distinct (pre-state, block, post-state) triples",
+        "assumptions": SD_ASSUME,
+    },
+    "C14": {
+        "family": "sd", "formulas": ["C14_Quorum", "C14_FormShape"], "nt": "C14", "vh_cfg": {"mode": "forms"},
+        "mc_cfg": {"quick": ["SD-mc-quorum-quick.cfg"], "thorough": ["SD-mc-quorum-quick.cfg"]},
+        "bug_variants": [],
+        "rule": "non-trivial = an attest/report signature on an existing form, or a successful form request; "
+                "distinct = distinct (pre-state, message, post-state) triples",
+        "assumptions": SD_ASSUME,
+    },
+    "C15": {
+        "family": "sd", "formulas": ["C15_Backed", "C15_Step"], "nt": "C15",
+        "mc_cfg": {"quick": ["SD-mc-coll-quick.cfg"], "thorough": ["SD-mc-coll-quick.cfg"]},
+        "bug_variants": [],
+        "rule": "non-trivial = a successful provider init or shutdown; distinct = distinct (pre-state, message, post-state) triples",
+        "assumptions": SD_ASSUME + ["collateral price changes are applied through the params keeper, not a governance proposal"],
+    },
+    "C17": {
+        "family": "sd", "formulas": ["C17_Indexes", "C17_Lists"], "nt": "C17",
+        "mc_cfg": {"quick": ["SD-mc-rewards-quick.cfg", "SD-mc-quorum-quick.cfg"], "thorough": ["SD-mc-rewards-quick.cfg", "SD-mc-quorum-quick.cfg", "SD-mc-rewards-thorough.cfg"]},
+        "bug_variants": [],
+        "rule": "non-trivial = a step that changes the file set, a prover list or a proof record; "
+                "distinct = distinct (pre-state, message, post-state) triples",
+        "assumptions": SD_ASSUME,
     },
 }
